@@ -141,6 +141,34 @@ Theorem C13_spec_exact :
   forall e, In e (FSModel.ents s') <-> (In e (FSModel.ents s) /\ ~ DynRemove.under s d name e).
 Proof. exact DynRemoveExact.rm_all_exact. Qed.
 
+(* ---- C13: remove_all does not run out of fuel, and the whole statement for the kernel backend ------------
+   [deep s k c]: the sub-directories below [c] nest at most k deep.  With fuel k + (number of entries) + 6 the
+   pure function returns a result ([Some]): every pass over a directory has enough fuel, a pass that went
+   through leaves the directory empty, so the second round sees nothing -- two rounds always suffice. *)
+From PV Require DynRemoveTotal.
+
+Theorem C13_spec_terminates :
+  forall k f s d name, DynRemove.ents_ok s -> (k + length (FSModel.ents s) + 6 <= f)%nat ->
+  (forall c, FSModel.lookup s d name = Some c -> FSModel.is_dir s c = true -> DynRemoveTotal.deep s k c) ->
+  DynRemove.rm_all f s d name <> None.
+Proof. exact DynRemoveTotal.rm_all_total. Qed.
+
+Theorem C13_remove_all_post_kernel_backend :
+  forall s rp fz pfuel gh ps rs t root path dirp name o k rfuel,
+  StaticProofs.closed s -> fz <> 0%nat -> rs_kernel rs = true -> DynRemoveExact.uniq s -> DynRemove.ents_ok s ->
+  path_split path = Some (Ok (dirp, Some name)) -> has_nul dirp = false -> Dyn.plain name = true ->
+  Static.tget t root = Some FSModel.ROOT ->
+  FSModel.kwalk s dirp false (has (N.lor OPENAT2_RESOLVE_RESOLVE (rs_flags rs)) RESOLVE_NO_SYMLINKS) = FSModel.WOk o ->
+  (forall c, FSModel.lookup s o name = Some c -> FSModel.is_dir s c = true -> DynRemoveTotal.deep s k c) ->
+  (k + length (FSModel.ents s) + 6 <= rfuel)%nat ->
+  exists s' r,
+    Dyn.drun rp {| Dyn.ds := s; Dyn.dt := t; Dyn.dseen := [] |} (root_remove_all fz true pfuel gh ps rfuel rs root path) =
+      Dyn.DDone {| Dyn.ds := s'; Dyn.dt := t; Dyn.dseen := [] |} r /\
+    DynRemove.shrinks s s' /\
+    (r = Ok tt -> forall e, In e (FSModel.ents s') <-> (In e (FSModel.ents s) /\ ~ DynRemove.under s o name e)).
+Proof. exact DynRemoveTotal.remove_all_kernel_post. Qed.
+
+
 (* executed (non-vacuity): a/ has a sub-directory with a file, a link to a sibling and a link to the
    outside; remove_all("a") on both backends removes a and everything below, follows neither link
    (keep/ and its content stay), returns Ok; the pure function gives the same tree; remove_all of a
@@ -177,3 +205,5 @@ Print Assumptions C13_spec_removes_only_beneath.
 Print Assumptions C13_spec_success_means_gone.
 Print Assumptions C13_spec_removes_everything_beneath.
 Print Assumptions C13_spec_exact.
+Print Assumptions C13_spec_terminates.
+Print Assumptions C13_remove_all_post_kernel_backend.
